@@ -10,6 +10,10 @@ CHECKS = {
    technique="runtime monitoring: reference-model oracle (64-bit evaluator) over .dc64 expressions assembled by the sanitizer build",
    text="Exploration: every operator sequence up to 3 (quick) / 4 (thorough) operators, unary and parenthesis placements, all literal spellings, valueless expressions, plus seeded random trees; the real evaluator's output bytes are compared with an independent reference evaluator under ASan/UBSan. Held-on-what-was-run, not a proof.",
    note="Trusts vf/ref/expr.py as the reading of the statement; '/' '%' truncate toward zero; shifts outside 0..63, >> of negatives and INT64_MIN/-1 are masked."),
+ "C08": dict(engine="vdrv+cli", design="3/C08",
+   technique="runtime monitoring: exhaustive 16-bit decode sweep under ASan/UBSan with exact-size text buffer, locality re-decodes, range-tiling monitor against the decoder walk, CLI disassembly runs under CPU-time watchdog",
+   text="Exploration, exhaustive over the leading 16 bits: all 65536 leading patterns x tail fillings per CPU are decoded by the real single-instruction disassemblers in the sanitizer build; termination, NUL-termination inside the 128-byte buffer, length bounds and independence from following bytes are asserted per decode; address tiling of the real disasm_range output is compared with the decoder walk; naken_util -disasm runs on generated files. Violations present in the unchanged tree are catalogued per input in known-findings.txt; any input outside the catalogue is reported.",
+   note="Maximum instruction length is an over-approximation (16 bytes, unbounded for java/webasm/dotnet); tms1000/tms1100 range output is only checked for termination; range ends near 2^32 not explored."),
 }
 
 PENDING_REASON = "check not built yet in this round of work; design exists in DESIGN.md section 3"
